@@ -8,7 +8,7 @@ Notation length := List.length.
 
 Definition hundredths (n : nat) : list Z := map Z.of_nat (seq 0 n).
 
-(* lengths d/100 <unit> for d = 0 .. 3000 (0.00 .. 30.00, the range of slide coordinates in cm/in) *)
+(* lengths d/100 <unit> for d = 0 .. 3000 (0.00 .. 30.00) *)
 Definition BOUND : nat := 3001.
 Definition UNITS : list str := [s "cm"; s "mm"; s "in"; s "pt"; s "pc"; s "px"; []].
 
@@ -16,7 +16,7 @@ Definition strictly_increasing_on (u : str) : bool :=
   forallb (fun d => f_ltb (odf_px_value d 2 u) (odf_px_value (d + 1) 2 u)) (hundredths (BOUND - 1)).
 
 Lemma all_units_strict : forallb strictly_increasing_on UNITS = true.
-Proof. vm_compute. reflexivity. Qed.
+Proof. vm_cast_no_check (eq_refl true). Qed.
 
 (* within one unit the key is strictly monotone: different positions never tie, larger is later *)
 Theorem odf_px_strictly_monotone_bounded :
@@ -51,7 +51,7 @@ Proof. split; vm_compute; reflexivity. Qed.
 Definition cm_mm_mismatches : nat :=
   length (filter (fun d => negb (f_eqb (odf_px_value d 2 (s "cm")) (odf_px_value d 1 (s "mm")))) (hundredths BOUND)).
 Example cm_mm_mismatch_count : cm_mm_mismatches = 1281%nat.
-Proof. vm_compute. reflexivity. Qed.
+Proof. vm_cast_no_check (eq_refl 1281%nat). Qed.
 
 (* _partial: the disagreement is at most one step of the grid — a length in cm and the same length in mm
    are both strictly between the keys of the neighbouring hundredths, so cross-unit order is wrong only
@@ -66,7 +66,7 @@ Theorem odf_px_cross_unit_order_partial :
   cross_unit_consistent (s "cm") 2 (s "mm") 1 1 1 = true      (* d/100 cm vs d/10 mm *)
   /\ cross_unit_consistent (s "in") 2 (s "pt") 2 1 72 = true  (* d/100 in vs 72d/100 pt *)
   /\ cross_unit_consistent (s "in") 2 (s "px") 2 1 96 = true. (* d/100 in vs 96d/100 px *)
-Proof. repeat split; vm_compute; reflexivity. Qed.
+Proof. split; [|split]; vm_cast_no_check (eq_refl true). Qed.
 
 (* scanner: examples of the regex language *)
 Example odf_scan_examples :
